@@ -215,7 +215,9 @@ c18_contiguous!(c18_q_contiguous_round, 4, 0);
 c18_contiguous!(c18_q_contiguous_rr_equal, 3, 1);
 #[cfg(feature = "thorough")]
 c18_contiguous!(c18_t_contiguous_rr_unequal, 3, 2);
-c18_rr!(c18_q_rr, 4);
+c18_rr!(c18_q_rr, 3);
+#[cfg(feature = "thorough")]
+c18_rr!(c18_t_rr_s15, 4);
 c18_confine!(c18_q_confine, 4);
 #[cfg(feature = "thorough")]
 c18_circle_band!(c18_t_circle_band_d255, 8);
